@@ -301,6 +301,33 @@ let xcg_main () =
     end
   done with End_of_file -> ()
 
+(* ---------------------------------------------------------------- xmc: the whole-program model compile function
+   hvmain xmc <prog.sx> <opt: 0|1>      stdin: one line per procedure:  <name> <size> <nslots> <og>
+   XConstProp.front, then XCodegenProgram.model_compile frames opt (opt = 0: the validated image of the lowered
+   code, the one C01_program_partial speaks of; opt = 1: with the peephole pass, xcmp's bytes).
+   output: the image words in decimal separated by blanks, or "none" (outside the fragment / validation failed),
+   or "front-error" *)
+let xmc_main () =
+  let prog = program_of (parse_sx (read_file Sys.argv.(2))) in
+  let opt = Sys.argv.(3) = "1" in
+  let tbl = ref [] in
+  (try while true do
+     let line = input_line stdin in
+     match tokens line with
+     | [nm; a; b; c] -> tbl := (nm, (int_of_string a, int_of_string b, int_of_string c)) :: !tbl
+     | _ -> ()
+   done with End_of_file -> ());
+  let frames (x : String.string) =
+    match SL.assoc_opt (ocaml_string x) !tbl with
+    | Some (a, b, c) -> Some ((zi a, zi b), zi c)
+    | None -> None in
+  match XConstProp.front prog with
+  | XConstProp.COk p ->
+      (match XCodegenProgram.model_compile frames opt p with
+       | Some ws -> print_endline (SS.concat " " (SL.map (fun w -> P.sprintf "%d" (iz w)) ws))
+       | None -> print_endline "none")
+  | _ -> print_endline "front-error"
+
 (* ---------------------------------------------------------------- xsemtrace: the spec run with its call sequence
    hvmain xsemtrace <prog.sx> [steps depth]     stdin: one line per input = hex bytes ("-" = empty)
    one line per input:   calls main,f0,f1,f0 | behaviour exit=.. consumed=.. out=..      (or  | undef Reason ...)
